@@ -452,38 +452,64 @@ def run_impl(case):
 
     lower_saw = []       # what the wrappers of entered lower levels received (partial forwarding only)
 
-    def make_wrapper(below, top, forwards, entered=False):
-        if is_async:
+    async def _nothing():
+        return None
+
+    def make_wrapper(below, top, forwards, entered=False, kind=None):
+        """kind: 'async' (async def awaiting the function below; only for async functions), 'def' (plain def
+        returning below(*a, **kw)), 'lambda' (the same as a lambda)."""
+        kind = kind or ("async" if is_async else "def")
+
+        def record(args, kwargs):
+            if top:
+                saw.append((args, dict(kwargs)))
+            elif entered:
+                lower_saw.append((args, dict(kwargs)))
+
+        def passthrough(args, kwargs):
+            record(args, kwargs)
+            if forwards:
+                return below(*args, **kwargs)          # for an async function: its coroutine, un-awaited
+            return _nothing() if is_async else None     # something the generated "await" can await
+        if kind == "async":
+            assert is_async
+
             async def wrapper(*args, **kwargs):
-                if top:
-                    saw.append((args, dict(kwargs)))
-                elif entered:
-                    lower_saw.append((args, dict(kwargs)))
+                record(args, kwargs)
                 if forwards:
                     return await below(*args, **kwargs)
                 return None
+        elif kind == "lambda":
+            wrapper = lambda *args, **kwargs: passthrough(args, kwargs)      # noqa: E731
         else:
             def wrapper(*args, **kwargs):
-                if top:
-                    saw.append((args, dict(kwargs)))
-                elif entered:
-                    lower_saw.append((args, dict(kwargs)))
-                if forwards:
-                    return below(*args, **kwargs)
-                return None
+                return passthrough(args, kwargs)
         return wrapper
 
     def enc_call(a, k):
         return {"pos": [vtok(x) for x in a], "kw": [[NAME_TOK[n], vtok(x)] for n, x in k.items()]}
 
+    extra_seen = [0]
+
     def do_call(fn, c, coro):
+        """Call, and for an async function drive the coroutine to completion the way `await` does; count how many
+        awaits MORE than one it takes until a value that is no coroutine appears (98: the call of an async
+        function's wrapper gave nothing awaitable at all)."""
         pos = [_VALS[t] for t in c["pos"]]
         kw = {PNAMES[n]: _VALS[v] for n, v in c["kw"]}
         assert len(kw) == len(c["kw"])
         try:
             r = fn(*pos, **kw)
             if coro:
+                if not inspect.iscoroutine(r):
+                    extra_seen[0] = max(extra_seen[0], 98)
+                    return r
                 r = run_coro(r)
+                extra = 0
+                while inspect.iscoroutine(r):
+                    extra += 1
+                    r = run_coro(r)
+                extra_seen[0] = max(extra_seen[0], extra)
         except TypeError:
             return "TypeError"
         return r
@@ -502,7 +528,8 @@ def run_impl(case):
         injected, expected, kw = _step_args(st, funcutils)
         # every wrapper forwards (plain stacks), or only those of the top `partial` levels
         wrapper = make_wrapper(cur, i == nsteps - 1, forward or i >= nsteps - case.get("partial", 0),
-                               entered=not forward and i >= nsteps - 1 - case.get("partial", 0))
+                               entered=not forward and i >= nsteps - 1 - case.get("partial", 0),
+                               kind=st.get("wkind"))
         fids[id(wrapper)] = WRAPPER_ID + i
         try:
             if st["entry"] == "update_wrapper":
@@ -535,6 +562,7 @@ def run_impl(case):
         obs["again"] = None
     calls = []
     lowers = []
+    assert extra_seen[0] == 0, "the original function itself needed %d extra awaits" % extra_seen[0]
     if fail is None:
         for c in case["calls"]:
             del saw[:]
@@ -556,6 +584,7 @@ def run_impl(case):
             lowers.append([enc_call(a, k) for a, k in lower_saw])
     obs["top_calls"] = calls
     obs["lower_saws"] = lowers
+    obs["extra"] = extra_seen[0]
     return obs
 
 
@@ -626,14 +655,17 @@ def to_coq(case, obs):
     levels = clist("(mkBO %s %s %s %s %s %s)" % (_sig(b["sig"]), cnat(b["name"]), _on(b["doc"]), _on(b["module"]),
                                                   _nv(b["dict"]), cbool(b["async"])) for b in obs["levels"])
     fail = "None" if obs["fail"] is None else "(Some %s)" % EXN[obs["fail"]]
-    return "mkCase %s %s %s %s %s %s %s %s %s %s %s %s %s %s %s" % (
+    return "mkCase %s %s %s %s %s %s %s %s %s %s %s %s %s %s %s %s %s" % (
         _pyfunc(case["f"]), clist(_step(st) for st in case["steps"]), cbool(case["forward"]), cnat(case.get("partial", 0)),
+        clist("WAsync" if st.get("wkind", "async" if case["f"]["async"] else "def") == "async" else "WSync"
+              for st in case["steps"]),
         clist(_call(c) for c in case["calls"]),
         _sig(obs["fsig"]), cbool(obs["fasync"]), clist(_rb(r) for r in obs["direct"]),
         _sig(obs["fsig_after"]), _nv(obs["fdict_after"]),
         "None" if obs["again"] is None else "(Some %s)" % _sig(obs["again"]), levels, fail,
         clist(cpair("None" if c["saw"] is None else "(Some %s)" % _call(c["saw"]), _rb(c["out"]))
               for c in obs["top_calls"]),
+        cnat(obs["extra"]),
         clist(clist(_call(x) for x in l) for l in obs["lower_saws"]))
 
 
@@ -807,6 +839,9 @@ def make_case(rng, fd, ncalls, variant, depth=1, variants=None):
         calls.append(accepting_call(rng, fd, s))
     # in a stack that is not all plain, the wrappers of the plain levels on top forward, so that calls run
     # through the generated bodies of those levels and of the first level below them
+    for st in steps:
+        # the decorator's wrapper: a plain def / a lambda passing its arguments on, or (async functions) an async def
+        st["wkind"] = rng.choice(["def", "async", "lambda", "def", "async"] if fd["async"] else ["def", "def", "lambda"])
     partial = 0
     if not plain:
         for st in reversed(steps):
@@ -966,6 +1001,8 @@ def distribution(d, case, obs):
         inc("wrapped_function_already_has___wrapped__", "yes")
     inc("form", ("async " if fd["async"] else "") + fd["form"])
     inc("stack", "stopped:" + obs["fail"] if obs.get("fail") else "built")
+    for st in case["steps"]:
+        inc("wrapper_kind", ("async f / " if fd["async"] else "sync f / ") + st.get("wkind", "default"))
     inc("forwarding", "to f" if case["forward"] else "through %d lower levels" % case.get("partial", 0))
     for c in obs.get("top_calls", []):
         inc("call_outcome", "TypeError" if c["out"] == "TypeError" else "accepted")
